@@ -7,6 +7,7 @@ import ast
 from ..astutil import cond_terms, requires_flag, size_dependent
 from ..cfg import CFG
 from ..core import AnalysisError, const_value, walk_own
+from ..tutil import np_call
 from ..defuse import MUTATORS, DefUse, Terms, show, walk_term
 
 EXPLANATION = (
@@ -467,11 +468,14 @@ def _calibration_outside_chunk_loop(ctx):
               "calibration sits inside the loop over file chunks: the "
               "anchors would be computed per chunk", node=calls[0])
     # predictions of all chunks are collected before: hstack over the list
-    a0 = ast.unparse(calls[0].args[0])
-    ctx.check(a0.startswith("np.hstack(") or a0.startswith(
-        "np.concatenate("), "C05d-all-chunks-collected", f,
-        "calibration sees the concatenation of every chunk's predictions "
-        "of the fold", f"calibrated value is {a0}", node=calls[0])
+    T = Terms(DefUse(prog, f), phi_vars=True)
+    a0 = T.of(calls[0].args[0]) if calls[0].args else ("unknown", "")
+    c0 = np_call(a0)
+    ctx.check(bool(c0) and c0[0] in ("hstack", "concatenate"),
+              "C05d-all-chunks-collected", f,
+              "calibration sees the concatenation of every chunk's "
+              "predictions of the fold",
+              f"calibrated value is {show(a0, 100)}", node=calls[0])
 
 
 # ------------------------------------------------------------------ e
